@@ -131,6 +131,19 @@ func gcScenariosC04(c *Ctx) []gcScenario {
 				Gate: &gcGate{Point: pt, ID: "m:1", Event: "subscribe:t1"}})
 		}
 	}
+	// more than 64 subscriptions of which the first 64 never settle: the others are served all the same
+	for _, per := range []bool{false, true} {
+		sc := gcScenario{Class: "wide-fanout", Persistent: per, Buffer: 0}
+		for k := 0; k < 70; k++ {
+			b := "neverack"
+			if k >= 64 {
+				b = "ack"
+			}
+			sc.Subs = append(sc.Subs, gcSub{Name: fmt.Sprintf("s%d", k+1), Topic: "t1", Behav: b})
+		}
+		sc.Pubs = []gcPub{{Name: "p1", Topic: "t1", N: 2}}
+		scs = append(scs, sc)
+	}
 	// a late subscription that stalls on the second message of the replayed backlog: the first delivery's context ends with its Ack all the same
 	for _, buf := range []int{0, 2} {
 		scs = append(scs, gcScenario{Class: "replay-stall", Persistent: true, Buffer: buf,
@@ -304,6 +317,18 @@ func gcScenariosC07(c *Ctx) []gcScenario {
 			}
 		}
 	}
+	// several subscriptions through ONE decorator object: cancelling one of them concerns that one only
+	for i := 0; i < c.Pick(6, 60); i++ {
+		d := 1 + i%2
+		scs = append(scs, gcScenario{Class: "shared-decorator", Persistent: i%3 == 0, Buffer: i % 2, SharedDec: true, Closers: 1,
+			Subs: []gcSub{{Name: "s1", Topic: "t1", Behav: "ack", CancelAfter: 1, StopReading: i%2 == 0, Decorators: d}, {Name: "s2", Topic: "t1", Behav: "nack1", Decorators: d},
+				{Name: "s3", Topic: "t1", Behav: "ack", Decorators: d, CancelAt: 2}},
+			Pubs: []gcPub{{Name: "p1", Topic: "t1", N: 3}, {Name: "p2", Topic: "t1", N: 2}}})
+		scs = append(scs, gcScenario{Class: "shared-decorator", Persistent: i%3 == 1, Buffer: i % 2, SharedDec: true, Closers: 1,
+			Subs: []gcSub{{Name: "s1", Topic: "t1", Behav: "ack", Decorators: d}, {Name: "s2", Topic: "t1", Behav: "ack", Decorators: d, CancelAt: 1},
+				{Name: "s3", Topic: "t1", Behav: "slow", Decorators: d}},
+			Pubs: []gcPub{{Name: "p1", Topic: "t1", N: 4}}})
+	}
 	// Close while a late subscription is replaying a long persisted backlog
 	for i := 0; i < c.Pick(8, 120); i++ {
 		scs = append(scs, gcScenario{Class: "close-during-replay", Persistent: true, Buffer: i % 2, CloseAt: 3, Closers: 1,
@@ -356,6 +381,14 @@ func gcScenariosC11(c *Ctx) []gcScenario {
 				Subs: []gcSub{{Name: "s1", Topic: "t1", Behav: "ack"}, {Name: "s2", Topic: "t1", Behav: "ack", Phase: 1}},
 				Pubs: []gcPub{{Name: "p0", Topic: "t1", N: 2}},
 				Gate: &gcGate{Point: pt, ID: "s:s2", Event: "publish:t1"}})
+		}
+	}
+	// messages that share one UUID (a requeued message, a re-published copy) are messages in their own right
+	for _, buf := range []int{0, 2} {
+		for _, blk := range []bool{false, true} {
+			scs = append(scs, gcScenario{Class: "same-uuid/" + gcCfgName(true, blk, buf), Persistent: true, Blocking: blk, Buffer: buf, SameUUID: true,
+				Subs: []gcSub{{Name: "s0", Topic: "t1", Behav: "ack"}, {Name: "s1", Topic: "t1", Behav: "nack1", Phase: 1}, {Name: "s2", Topic: "t1", Behav: "ack", Phase: 2}},
+				Pubs: []gcPub{{Name: "p1", Topic: "t1", N: 3}, {Name: "p2", Topic: "t1", N: 2, Batch: true}}})
 		}
 	}
 	// the FIRST subscription of a topic races with many publishers (no subscription exists when they start)
